@@ -4,6 +4,8 @@ PE file.
 
 use std::prelude::v1::*;
 
+use std::cmp;
+
 use crate::Result;
 
 use super::pe::validate_headers;
@@ -64,7 +66,9 @@ impl<'a> PeFile<'a> {
 			let src = image.get(section.PointerToRawData as usize..u32::wrapping_add(section.PointerToRawData, section.SizeOfRawData) as usize);
 			// Skip invalid sections...
 			if let (Some(dest), Some(src)) = (dest, src) {
-				dest.copy_from_slice(src);
+				// The virtual size and the size of raw data are rarely equal, copy what fits
+				let len = cmp::min(dest.len(), src.len());
+				dest[..len].copy_from_slice(&src[..len]);
 			}
 		}
 
